@@ -217,6 +217,7 @@ def main():
                                   dict(dp=dp, config=cfg, history=[cmd_json(x) for x in cmds], line=raw))
     # formatter.parameters()/command() with scalar types on axis and non-axis words -----------------------
     words_checked = 0
+    block_cases = []
     for i in range(4000 if run.thorough else 600):
         r = run.rng
         dp = r.choice([0, 2, 5, 8])
@@ -271,6 +272,42 @@ def main():
         if prob:
             found = True
             run.violation(prob, dict(decimal_places=dp, params={k: (repr(v), type(v).__name__) for k, v in params.items()}, observed=txt))
+        else:
+            block_cases.append((dp, dict(params), txt))
+    # the same statements against the block model (coq/model/Block.v: command / parameters), byte for byte
+    blocks_ok = 0
+    if block_cases:
+        body = "Open Scope Z_scope.\n"
+        for dp, params, txt in block_cases:
+            up = {k.upper(): v for k, v in params.items()}
+            order = [a for a in "XYZ" if a in up] + [k for k in up if k not in "XYZ"]
+            ws = []
+            for k in order:
+                eb, mb, b = bits_of(up[k])
+                ws.append("mkbword %s %d %d %d" % (g_list([str(c) + "%N" for c in k.encode()]), eb, mb, b))
+            body += "Eval vm_compute in (match command_text %d%%nat [71%%N; 49%%N] %s with Some l => (1%%N, l) | None => (0%%N, []) end).\n" % (dp, g_list(ws))
+        vals = []
+        bad_eval = False
+        for rc, out in coq_eval_many(PID, [("blocks", body)], "From GS Require Import model.FloatFmt model.Block.\n", timeout=1800):
+            if rc != 0:
+                bad_eval = True
+                run.log("model evaluation failed:\n" + out[-1500:])
+                break
+            vals.extend(parse_evals(out))
+        if bad_eval or len(vals) != len(block_cases):
+            run.violation("the model (coq/model/Block.v) could not be evaluated", dict(theorem="C08_block"), no_input=not found)
+        else:
+            for (dp, params, txt), val in zip(block_cases, vals):
+                ok_, l = parse_term(val)
+                mtxt = bytes(l).decode() if ok_ == 1 else None
+                if mtxt != txt:
+                    run.violation("model and implementation disagree on the block for %r at decimal_places=%d: model %r, implementation %r; "
+                                  "the block grammar and the value oracle accept the implementation's text"
+                                  % ({k: repr(v) for k, v in params.items()}, dp, mtxt, txt),
+                                  dict(decimal_places=dp, params={k: (repr(v), type(v).__name__) for k, v in params.items()}, observed=txt, model=mtxt,
+                                       theorem="C08_block (coq/props/C08.v); correspondence: Block.command_text = DefaultFormatter.command"), no_input=True)
+                    break
+                blocks_ok += 1
     proof_broken_violation(run, st, found)
     run.cov["rule"] = ("formatter level: structured doubles (random bit patterns, uniform, dyadic, decimal ties at every "
                        "place, 10^k +- 1 ulp, powers of two incl. subnormals, magnitudes to 1e308, float32/float16/int/"
@@ -278,7 +315,7 @@ def main():
                        "judged by the value oracle; builder level: random histories x decimal_places x comment style x "
                        "line ending x relabelled X axis, every raw line through an independent block grammar. "
                        "non-trivial = finite non-zero value; distinct = distinct (value, type, dp).")
-    run.finish(proof=st, extra=dict(input_distribution=dict(value_types=kinds), builder_lines_checked=lines_checked, parameter_words_checked=words_checked,
+    run.finish(proof=st, extra=dict(input_distribution=dict(value_types=kinds), builder_lines_checked=lines_checked, parameter_words_checked=words_checked, blocks_compared_with_model=blocks_ok,
                                     traces_validated_against_impl=len(model) if model_ok else 0))
 
 
